@@ -170,7 +170,9 @@ class QueryPlanner:
             table_name = table.parts[-1]
             if integration_name == self.default_namespace and table_name in self.cte_results:
                 select.from_table = None
-                return SubSelectStep(select, self.cte_results[table_name], table_name=table_name)
+                # the rows are known under the alias of the reference, if it has one (WITH c AS (...) ... JOIN c AS q ON q.id = ...)
+                name = table.alias.parts[-1] if table.alias is not None else table_name
+                return SubSelectStep(select, self.cte_results[table_name], table_name=name)
 
         fetch_df_select = copy.deepcopy(select)
         self.prepare_integration_select(integration_name, fetch_df_select)
